@@ -924,9 +924,11 @@ void bn_rec_sac(int8_t *b, size_t *len, const bn_t *k, const bn_t u, size_t c,
 		return;
 	}
 
+	for (size_t i = 0; i < m; i++) {
+		bn_null(t[i]);
+	}
 	RLC_TRY {
 		for (size_t i = 0; i < m; i++) {
-			bn_null(t[i]);
 			bn_new(t[i]);
 		}
 
